@@ -24,7 +24,8 @@ var h02Classes = []struct {
 }
 
 // probe strings for AllowChars / ExcludeChars
-var h02Strings = []string{"", "a", "0a5", "é!é", "✓Z", "O0", "ab", "xyz!"}
+// (the last one: characters above U+00FF whose low byte is '0' resp. 'a')
+var h02Strings = []string{"", "a", "0a5", "é!é", "✓Z", "O0", "ab", "xyz!", "İš"}
 
 // probe families for RequireSets
 var h02ReqSets = [][]string{
@@ -152,8 +153,9 @@ func h02Recipe() CharRecipe {
 	r.Require = CTFlag(vU8("require") & rm)
 	r.Exclude = CTFlag(vU8("exclude") & em)
 	ns := vParam("strings", len(h02Strings))
-	r.AllowChars = h02Strings[vChoice("allowchars", ns)]
-	r.ExcludeChars = h02Strings[vChoice("excludechars", ns)]
+	smin := vParam("stringmin", 0)
+	r.AllowChars = h02Strings[smin+vChoice("allowchars", ns-smin)]
+	r.ExcludeChars = h02Strings[vChoice("excludechars", vParam("xstrings", ns))]
 	rmin := vParam("reqsetmin", 0)
 	r.RequireSets = h02ReqSets[rmin+vChoice("requiresets", vParam("reqsets", len(h02ReqSets))-rmin)]
 	r.Length = vLen("length", vParam("Lmin", 1), vParam("L", 2))
